@@ -32,6 +32,9 @@ type OCSPAnswer struct {
 	Serial string `json:"serial,omitempty"`
 	// NextUpdate: "" absent | past | future
 	NextUpdate string `json:"next_update,omitempty"`
+	// RevokedAtFuture: a revoked answer carries a revocationTime a few hours ahead of the local clock (clock skew
+	// between the CA and this host, or a CA that dates revocations ahead)
+	RevokedAtFuture bool `json:"revoked_at_future,omitempty"`
 }
 
 // OCSPParties are the certificates a responder can sign with.
@@ -105,6 +108,9 @@ func (p *OCSPParties) Build(a OCSPAnswer, serial *big.Int) (body []byte, status 
 	case "revoked":
 		tpl.Status = ocsp.Revoked
 		tpl.RevokedAt = time.Now().Add(-time.Hour)
+		if a.RevokedAtFuture {
+			tpl.RevokedAt = time.Now().Add(3 * time.Hour)
+		}
 		tpl.RevocationReason = ocsp.KeyCompromise
 	case "unknown":
 		tpl.Status = ocsp.Unknown
